@@ -302,30 +302,43 @@ from harness import lagcomm
 out = []
 for dim in (2, 3):
     for ncomp in (1, dim):
+      # marker layouts: all on one cell centre; cell centres stepping -1 / 0 / +1 along ONE axis in an order that is
+      # sorted along no axis (a sweep ordered by row, column or plane index instead of marker index must show)
+      for layout in ["same-cell"] + ["axis%%d" %% a for a in range(dim)]:
         dx = 0.125
         shape = lagcomm.SHAPES[dim]
         comm = lagcomm.Comm(dim, "cosine", np.float64, dx, n_components=ncomp)
         n = comm.n
         cell = [s // 2 for s in shape]
+        steps = [1, -1, 0, 1, 0, -1, 1, 0]
         P = np.zeros((dim, n))
         for k in range(dim):
-            P[k, :] = (cell[dim - 1 - k] + 0.5) * dx   # all markers exactly on one cell centre
+            P[k, :] = (cell[dim - 1 - k] + 0.5) * dx
+            if layout == "axis%%d" %% k:
+                P[k, :] += np.array(steps[:n]) * dx
         comm.locate(P.copy())
-        w = comm.weights[..., 0]
         forces = [2.0**60, 1.0, -(2.0**60), 3.0, 2.0**59, -(2.0**59), 0.5, -4.0]
+        # the weight each marker gives to the target cell, read from the kernel's own weight array
+        wts = []
+        for m in range(n):
+            win = comm.window(m)
+            pos = tuple(int(np.where(win[a] == cell[a])[0][0]) for a in range(dim))
+            wts.append(float(comm.weights[pos + (m,)]))
+        wmax = max(wts)
+        ratio = [wmax / w_ for w_ in wts]  # powers of two: force x weight reproduces the same exact products in every layout
         lag = np.zeros((n,) if ncomp == 1 else (ncomp, n))
         if ncomp == 1:
-            lag[:] = forces
+            lag[:] = np.array(forces) * np.array(ratio)
         else:
             for c in range(ncomp):
-                lag[c] = np.roll(forces, c)
+                lag[c] = np.roll(forces, c) * np.array(ratio)
         eul = np.zeros(shape if ncomp == 1 else (ncomp, *shape))
         comm.spread(eul, lag)
         idx = tuple(cell)
         got = [float(eul[idx])] if ncomp == 1 else [float(eul[(c, *idx)]) for c in range(ncomp)]
-        wc = float(w[(1,) * dim])  # weight of the marker's own cell
+        wc = wmax
         par = {k: bool(getattr(getattr(comm.c, k), "targetoptions", {}).get("parallel", False)) for k in ("lagrangian_to_eulerian_grid_interpolation_kernel", "eulerian_to_lagrangian_grid_interpolation_kernel", "local_eulerian_grid_support_of_lagrangian_grid_kernel", "interpolation_weights_kernel")}
-        out.append({"dim": dim, "ncomp": ncomp, "got": got, "wc": wc, "forces": forces, "parallel": par})
+        out.append({"dim": dim, "ncomp": ncomp, "layout": layout, "got": got, "wc": wc, "w": wts, "ratio": ratio, "forces": forces, "parallel": par})
 print("RESULT" + json.dumps(out))
 """
 
@@ -351,15 +364,17 @@ def case_spreading_order(threads):
         forces = rec["forces"]
         for c, got in enumerate(rec["got"]):
             fs = list(np.roll(forces, c)) if rec["ncomp"] > 1 else forces
+            fs = [f * q for f, q in zip(fs, rec.get("ratio", [1.0] * len(fs)))]
             # reference: serial accumulation in marker order; and the set of results of ALL orders of the first 4
+            ws = rec.get("w", [wc] * len(fs))
             acc = 0.0
-            for f in fs:
-                acc = acc + f * wc
+            for f, w_m in zip(fs, ws):
+                acc = acc + f * w_m
             orders = set()
             for perm in itertools.permutations(range(len(fs))) if len(fs) <= 4 else itertools.islice(itertools.permutations(range(len(fs))), 5040):
                 a = 0.0
                 for i in perm:
-                    a = a + fs[i] * wc
+                    a = a + fs[i] * ws[i]
                 orders.add(a)
             states += 1
             if len(orders) < 2:
@@ -367,7 +382,7 @@ def case_spreading_order(threads):
 
                 raise HarnessError("spreading-order alphabet does not distinguish accumulation orders")
             if got != acc:
-                fails.append(Fail("spreading:accumulation-order", "spreading did not accumulate marker contributions in serial marker order", dim=rec["dim"], ncomp=rec["ncomp"], component=c, got=got, marker_order_result=acc, threads=threads, other_order_results=sorted(orders)[:4]))
+                fails.append(Fail("spreading:accumulation-order", "spreading did not accumulate marker contributions in serial marker order", layout=rec.get("layout"), dim=rec["dim"], ncomp=rec["ncomp"], component=c, got=got, marker_order_result=acc, threads=threads, other_order_results=sorted(orders)[:4]))
         for k, v in rec["parallel"].items():
             if v:
                 fails.append(Fail("spreading:parallel-dispatcher", "a communicator closure is compiled with parallel=True", closure=k, dim=rec["dim"]))
